@@ -378,6 +378,84 @@ pub fn do_op<K: KeyT, V: ValT>(m: &mut Map<K, V>, w: &[&str], chk: &mut Vec<Stri
             };
             r
         }
+        // replace_entry_with / and_replace_entry_with (Entry and RawEntryMut): Some(v) = overwrite
+        // in place (the primitive removes the element and puts it back), None = remove
+        "entry_replace" | "entry_and_replace" => {
+            let some = w[3] == "some";
+            let nv = n(4);
+            let e = m.entry(K::mk(n(1), n(2)));
+            let mut old: Option<u64> = None;
+            let mut f = |_k: &K, val: V| {
+                old = Some(val.val());
+                held.push(Box::new(val));
+                if some { Some(V::mk(nv)) } else { None }
+            };
+            let after = if w[0] == "entry_replace" {
+                match e {
+                    Entry::Occupied(o) => o.replace_entry_with(&mut f),
+                    v => v,
+                }
+            } else {
+                e.and_replace_entry_with(&mut f)
+            };
+            let was_occupied = old.is_some();
+            let mut stamp_of_removed = 0;
+            match after {
+                Entry::Vacant(v) => {
+                    if was_occupied {
+                        let k = v.into_key();
+                        stamp_of_removed = k.stamp();
+                        held.push(Box::new(k));
+                    }
+                }
+                Entry::Occupied(o) => {
+                    if was_occupied && !some {
+                        chk.push("replace_entry_with returned Occupied although the closure returned None".into());
+                    }
+                    if was_occupied && o.get().val() != nv {
+                        chk.push("replace_entry_with: the entry does not hold the new value".into());
+                    }
+                }
+            }
+            match (old, some) {
+                (Some(v), true) => Out::Val(v),
+                (Some(v), false) => Out::KV(stamp_of_removed, v),
+                (None, _) => Out::None,
+            }
+        }
+        "raw_replace" | "raw_and_replace" => {
+            let some = w[3] == "some";
+            let nv = n(4);
+            let k = K::mk(n(1), n(2));
+            let e = m.raw_entry_mut().from_key(&k);
+            let mut old: Option<u64> = None;
+            let mut f = |_k: &K, val: V| {
+                old = Some(val.val());
+                held.push(Box::new(val));
+                if some { Some(V::mk(nv)) } else { None }
+            };
+            let after = if w[0] == "raw_replace" {
+                match e {
+                    hashbrown::hash_map::RawEntryMut::Occupied(o) => o.replace_entry_with(&mut f),
+                    v => v,
+                }
+            } else {
+                e.and_replace_entry_with(&mut f)
+            };
+            if let hashbrown::hash_map::RawEntryMut::Occupied(o) = &after {
+                if old.is_some() && !some {
+                    chk.push("raw replace_entry_with returned Occupied although the closure returned None".into());
+                }
+                if old.is_some() && o.get().val() != nv {
+                    chk.push("raw replace_entry_with: the entry does not hold the new value".into());
+                }
+            }
+            drop(after);
+            match old {
+                Some(v) => Out::Val(v),
+                None => Out::None,
+            }
+        }
         "entry_or_insert" => {
             let v = m.entry(K::mk(n(1), n(2))).or_insert(V::mk(n(3)));
             Out::Val(v.val())
